@@ -70,31 +70,49 @@ pub fn watch_desc(d: impl FnOnce() -> String) {
         *g = d();
     }
 }
-/// Starts the watchdog thread: if a guarded region runs longer than `limit_s`, `on_hang(desc)` decides the exit code.
-pub fn start_watchdog(limit_s: u64, prop: String) {
+fn rss_kb() -> u64 {
+    std::fs::read_to_string("/proc/self/statm").ok().and_then(|s| s.split_whitespace().nth(1).and_then(|p| p.parse::<u64>().ok())).map(|pages| pages * 4).unwrap_or(0)
+}
+
+/// Starts the watchdog thread. A guarded region (one planner call, or one short history) that runs
+/// longer than `limit_s`, or a process whose resident memory passes the limit (a loop that allocates
+/// without end, e.g. path extraction over a parent cycle), ends the run: for the properties that
+/// promise termination (C06 "never blocks", C08 "each call returns", C15 "extracting a path
+/// terminates") the non-returning call is the violation, with the scenario it was executing as
+/// replay; for the others the findings of the completed explorations are reported if there are any,
+/// else it is an engine error.
+pub fn start_watchdog(limit_s: u64, prop: String, tier: String) {
     let _ = slots();
     let _ = now_ms();
+    let rss_limit_kb: u64 = std::env::var("MC_RSS_LIMIT_GB").ok().and_then(|s| s.parse::<u64>().ok()).unwrap_or(20) * 1024 * 1024;
     std::thread::spawn(move || loop {
-        std::thread::sleep(std::time::Duration::from_millis(500));
+        std::thread::sleep(std::time::Duration::from_millis(250));
         let now = now_ms();
+        let ballooned = rss_kb() > rss_limit_kb;
+        // the longest-running guarded region
+        let mut worst: Option<(u64, String)> = None;
         for s in slots().iter() {
             let st = s.start_ms.load(std::sync::atomic::Ordering::Relaxed);
-            if st != 0 && now > st + limit_s * 1000 {
-                let desc = s.desc.lock().map(|g| g.clone()).unwrap_or_default();
-                if prop == "C06" && !desc.is_empty() {
-                    // "never blocks indefinitely" is C06's own clause
-                    let dir = format!("{}/replays/C06", crate::report::verif_root());
-                    let _ = std::fs::create_dir_all(&dir);
-                    let file = format!("{dir}/hang_{:x}.json", crate::report::h128(&desc.bytes().map(|b| b as u64).collect::<Vec<_>>()) as u64);
-                    let _ = std::fs::write(&file, format!("{{\"property\": \"C06\", \"key\": \"C06|hang\", \"what\": \"a planner call did not return within {limit_s} s of wall time under the logical clock\", \"replay\": {desc}}}"));
-                    crate::report::out(&format!("  what: a planner call did not return within {limit_s} s (no callback cap was hit: it spins without calling back)"));
-                    crate::report::out(&format!("VIOLATION property=C06 replay={file}"));
-                    std::process::exit(1);
-                }
-                crate::report::out(&format!("ENGINE-ERROR: a guarded region did not return within {limit_s} s: {desc}"));
-                std::process::exit(2);
+            if st != 0 && worst.as_ref().map(|w| st < w.0).unwrap_or(true) {
+                worst = Some((st, s.desc.lock().map(|g| g.clone()).unwrap_or_default()));
             }
         }
+        let Some((st, desc)) = worst else { continue };
+        let overdue = now > st + limit_s * 1000;
+        // a ballooning process is attributed to the region that has been running longest, provided it
+        // has been running for a while (normal regions take milliseconds)
+        if !(overdue || (ballooned && now > st + 3000)) {
+            continue;
+        }
+        let how = if overdue { format!("did not return within {limit_s} s of wall time under the logical clock") } else { format!("kept allocating (resident memory above {} GB) without returning", rss_limit_kb / 1024 / 1024) };
+        let reason = format!("a planner call {how}: {}", if desc.is_empty() { "(no descriptor)" } else { &desc });
+        let replay: serde_json::Value = serde_json::from_str(&desc).unwrap_or(serde_json::Value::String(desc.clone()));
+        let hang = if matches!(prop.as_str(), "C06" | "C08" | "C15") && !desc.is_empty() {
+            Some((format!("{prop}|planner-call-did-not-return"), format!("a planner call {how} (it spins without calling back, or extracts a path over a parent cycle)"), replay))
+        } else {
+            None
+        };
+        crate::report::emergency_finish(&prop, &tier, &reason, hang);
     });
 }
 
@@ -230,6 +248,7 @@ pub fn run_history<K: Kit>(sc: &Scenario, seq: &[u8], logging: bool) -> Result<(
 /// `construct_roadmap` call and a second query follow the first).
 pub fn run_history_split<K: Kit>(sc: &Scenario, seq: &[u8], logging: bool, split: usize) -> Result<(Rig<K>, Exec<K>), Caught> {
     SPLIT.with(|s| s.set(split));
+    watch_desc(|| format!("{{\"scenario\": {:?}, \"samples\": {:?}, \"call_boundary\": {split}}}", sc.tag, seq));
     let mut rig = guarded(|| Rig::<K>::new(sc, true))?;
     rig.logging(logging);
     let exec = guarded(|| {
